@@ -1,0 +1,14 @@
+//go:build verif
+
+// Contracts for the govc verifier (/verif). Comment-only; compiled only with -tags verif.
+
+package extractor
+
+//@ func NewContentExtractor(root, pageURL, logger)
+//@   requires root != nil
+//@   ensures result != nil && fresh(result) && result.TimingInfo != nil && fresh(result.TimingInfo) && result.Parser != nil
+//@   ensures wfParser(result.Parser)
+//@   ensures result.pageURL == pageURL && result.documentElement != nil
+
+//@ func (*ContentExtractor).ExtractTitle()
+//@   requires ce != nil && ce.Parser != nil && wfParser(ce.Parser) && ce.documentElement != nil
